@@ -26,6 +26,7 @@ from tielib import ENV, tie_component, run_proc   # noqa: E402
 import treegen as T        # noqa: E402
 import toolcheck as TC     # noqa: E402
 import img_tie as IMG      # noqa: E402
+import imgpost_tie as IMGP  # noqa: E402
 
 LEVEL = "proof"
 
@@ -184,6 +185,10 @@ def run(ctx):
     # composition stage (coq/Img): sqfs_serialize_fstree against Img.TreeModel.serialize_fstree, read-back oracle
     h_img = B.compile_harness(asan, [os.path.join(HERE, "h_img.c")], "c01_h_img", extra=inc)
     drv_img = core.build_model_driver("C01img", "ExtractImg.v", os.path.join(HERE, "img_driver.ml"))
+    # lib/fstree stage (coq/ImgPost): fstree_add_generic + fstree_post_process against C11.fs_add / post_process + to_img
+    drv_imgpost = core.build_model_driver("C01imgpost", "ExtractImgPost.v", os.path.join(HERE, "imgpost_driver.ml"))
+    ctx.trusted += ["props/C01/imgpost_driver.ml, imgpost_cases.py, imgpost_tie.py (add-operation lists -> extracted C11 fs_add/post_process "
+                    "+ ImgPost.Bridge.to_img, compared exactly with h_img.c's dump of fs->inodes)"]
     ctx.trusted += ["props/C01/h_img.c (fstree built with fstree_add_generic + fstree_post_process, dumped as the model's input; "
                     "in-memory sqfs_file_t; toy compressors), props/C01/img_driver.ml, img_cases.py, img_tie.py",
                     "coq/Img/TreeModel.v: hand-written model of serialize_fstree.c and the reader specification (read_tree) "
@@ -201,7 +206,9 @@ def run(ctx):
 
     rnd = random.Random(ctx.seed * 7919 + 1)
     tie_bad, prop_bad = [], []
-    with ThreadPoolExecutor(max_workers=5) as ex:
+    with ThreadPoolExecutor(max_workers=6) as ex:
+        f_imgpost = ex.submit(IMGP.stage, ctx, h_img, drv_imgpost, drv_img, random.Random(ctx.seed * 7919 + 6), quick,
+                              random.Random(ctx.seed * 7919 + 5))
         f_inode = ex.submit(check_inode_tie, ctx, h_inode, h_inode_plain, drv, random.Random(ctx.seed * 7919 + 2), quick)
         f_idt = ex.submit(check_idt, ctx, h_inode, drv)
         f_xattr = ex.submit(TC.check_xattr_tie, ctx, h_xattr, drv, random.Random(ctx.seed * 7919 + 3), quick, ENV) if h_xattr else None
@@ -220,11 +227,13 @@ def run(ctx):
             prop_bad += pb
         tstats = f_tool.result()
         istats = f_img.result()      # reports its own violations (tie:serialize-fstree, img-readback:*)
+        pstats = f_imgpost.result()  # reports its own violations (tie:fstree-post, imgpost-property:*)
     ctx.log("composition stage (serialize_fstree): %s" % istats)
+    ctx.log("lib/fstree stage (add operations -> post-processed tree): %s" % pstats)
 
-    evals = istats["cases"] + stats["enc"] + stats["dec"] + stats["mut"] + stats["ser"] + nidt + (xstats or {}).get("cases", 0) + tstats["images"]
+    evals = pstats["cases"] + istats["cases"] + stats["enc"] + stats["dec"] + stats["mut"] + stats["ser"] + nidt + (xstats or {}).get("cases", 0) + tstats["images"]
     ctx.coverage["evaluations"] = evals
-    ctx.coverage["distinct_nontrivial"] = istats["impl_readback_ok"] + stats["enc_wf"] + stats["dec_ok"] + stats["ser_ok"] + (xstats or {}).get("nontrivial", 0) + tstats["images_ok"]
+    ctx.coverage["distinct_nontrivial"] = pstats["built"] + istats["impl_readback_ok"] + stats["enc_wf"] + stats["dec_ok"] + stats["ser_ok"] + (xstats or {}).get("nontrivial", 0) + tstats["images_ok"]
     ctx.coverage["traces_validated_against_impl"] = evals
     ctx.coverage["exhaustive"] = False
     ctx.coverage["rule"] = (
@@ -238,10 +247,14 @@ def run(ctx):
         "C output through the reader specification): generated fstrees with every inode type, directories of 0/1/254..258/300/511..513 "
         "entries, listings ending at 8192 -20..+2 entries' worth around the metadata block border, 280..450 inodes (several inode "
         "blocks), nesting 10..90, hard links incl. to later-numbered files and link chains, names 1..1000 and 65536/65537 bytes, "
-        "long targets / block lists, 300..1000 owner ids, toy compressors store / RLE / zero-RLE / contract-breaking; tool level: %d generated trees x configurations (seed %d). "
+        "long targets / block lists, 300..1000 owner ids, toy compressors store / RLE / zero-RLE / contract-breaking; lib/fstree "
+        "(fstree_add_generic + fstree_post_process vs C11 model + ImgPost.to_img, exact dump of fs->inodes, verdicts on failure): "
+        "shuffled add lists over a collision-prone name pool (prefix siblings, bytes >= 0x80), implicit directories made explicit, "
+        "hard link chains / several links per target / links before and after their target and across directories, unclean target "
+        "spellings, EEXIST / ENOTDIR / EINVAL adds, dangling, directory and looping links, plus all trees of the composition stage; tool level: %d generated trees x configurations (seed %d). "
         "non-trivial = well-formed encoder case / decoder case accepted by the implementation / serialize case that succeeded / "
         "image that gensquashfs produced and that was compared completely" % (tstats["images"], ctx.seed))
-    ctx.coverage["distribution"] = dict(img=istats, inode=stats, inode_types_wf=sorted(types_seen, key=int), idt=nidt, xattr=xstats, tool=tstats)
+    ctx.coverage["distribution"] = dict(imgpost=pstats, img=istats, inode=stats, inode_types_wf=sorted(types_seen, key=int), idt=nidt, xattr=xstats, tool=tstats)
     for k in ("samples",):
         pass
     ctx.add_samples([dict(kind=k, input=i[:200], impl=(a or "")[:200], model=m[:200]) for k, i, a, m in []])
@@ -297,6 +310,16 @@ def replay(ctx, asan, plain, h_inode, h_xattr, drv):
         IMG.evaluate(ctx, res)
         ctx.coverage["evaluations"] = len(res)
         return
+    if kind == "imgpost-lines":
+        h_img = B.compile_harness(asan, [os.path.join(HERE, "h_img.c")], "c01_h_img", extra=["-I" + HERE])
+        drv_img = core.build_model_driver("C01img", "ExtractImg.v", os.path.join(HERE, "img_driver.ml"))
+        drv_imgpost = core.build_model_driver("C01imgpost", "ExtractImgPost.v", os.path.join(HERE, "imgpost_driver.ml"))
+        res = IMGP.run_all(h_img, drv_imgpost, [("replay", l, []) for l in r.get("lines", [])])
+        for x in res:
+            ctx.log("replay: impl =%s\n   model=%s # %s" % ((x["impl"] or "")[:400], (x["model"] or "")[:400], x["flags"]))
+        IMGP.evaluate(ctx, res, h_img, drv_img)
+        ctx.coverage["evaluations"] = len(res)
+        return
     if kind in ("tool", "targeted"):
         TC.replay_tool(ctx, asan, plain, r, ENV)
         return
@@ -308,3 +331,4 @@ def setup():
     regen_gen(plain)
     core.build_model_driver("C01", "ExtractC01.v", os.path.join(HERE, "driver.ml"))
     core.build_model_driver("C01img", "ExtractImg.v", os.path.join(HERE, "img_driver.ml"))
+    core.build_model_driver("C01imgpost", "ExtractImgPost.v", os.path.join(HERE, "imgpost_driver.ml"))
